@@ -17,7 +17,7 @@ package sam
 //@ spec func opR(t CigarOpType) int = ite(t == 0 || t == 2 || t == 3 || t == 7 || t == 8, 1, ite(t == 9, 0 - 1, 0))
 //@ spec func opType(co CigarOp) CigarOpType = CigarOpType(co & 0xf)
 //@ spec func opLen(co CigarOp) int = int(co >> 4)
-//@ spec func wfCigar(c Cigar) bool = len(c) <= 1099511627776 && forall i in 0..len(c) :: opType(c[i]) <= 10
+//@ spec func wfCigar(c Cigar) bool = len(c) <= 4294967295 && forall i in 0..len(c) :: opType(c[i]) <= 10
 
 // Consumes is also an accessor applied to decoded records (C11): BAM stores the
 // operation in four bits, so codes 11..15 reach it and must not panic.
@@ -583,6 +583,7 @@ package sam
 //@   anymode
 //@   props C11, C06
 //@   decoder
+//@   assumes pre Cigar.IsValid
 //@   requires r != nil
 //@   requires h != nil ==> forall k in 0..len(h.refs) :: h.refs[k] != nil
 //@   modifies all(r)
